@@ -31,6 +31,10 @@ type VueContext struct {
 	// v-once element tracking for deep clones
 	seen map[string]bool
 
+	// onceSkips counts the v-once elements that were left out because they had been rendered
+	// earlier in this render (shared by all contexts of one render, like seen).
+	onceSkips *int
+
 	// SlotScope contains slot content for the current component.
 	SlotScope *SlotScope
 
@@ -55,6 +59,7 @@ func NewVueContext(fromFilename string, options *VueContextOptions) VueContext {
 		TemplateStack: []string{fromFilename},
 		TagStack:      []string{},
 		seen:          make(map[string]bool),
+		onceSkips:     new(int),
 	}
 	for _, v := range options.Processors {
 		result.Processors = append(result.Processors, v.New())
@@ -75,6 +80,7 @@ func (ctx VueContext) WithTemplate(filename string) VueContext {
 		TemplateStack: newStack,
 		TagStack:      ctx.TagStack, // Share the same tag stack
 		seen:          ctx.seen,     // Share the v-once tracking map
+		onceSkips:     ctx.onceSkips,
 		Processors:    ctx.Processors,
 		SlotScope:     ctx.SlotScope, // Share the slot scope
 		includeDepth:  ctx.includeDepth,
@@ -118,4 +124,19 @@ func (ctx VueContext) Stack() *Stack {
 // nextSeenID returns a unique ID for tracking v-once elements across deep clones.
 func (ctx *VueContext) nextSeenID() string {
 	return ulid.String()
+}
+
+// noteOnceSkip records that a v-once element was left out as already rendered.
+func (ctx VueContext) noteOnceSkip() {
+	if ctx.onceSkips != nil {
+		*ctx.onceSkips++
+	}
+}
+
+// onceSkipCount returns how many v-once elements were left out so far in this render.
+func (ctx VueContext) onceSkipCount() int {
+	if ctx.onceSkips == nil {
+		return 0
+	}
+	return *ctx.onceSkips
 }
